@@ -141,7 +141,9 @@ def run(tier: str, driver_ok: bool) -> Result:
     res.rule = (
         "product of validity windows (valid_from in {inc-1s, inc, inc+1s} x valid_until in {unset, exp-1s, exp, exp+1s}) x identity claims "
         "(tag unset/right/wrong, DS unset/right-upper/right-lower/wrong, size/exponent/algorithm claims) x 14 token-content variants, for RSA "
-        "and ECDSA keys; quick samples the identity claims, thorough takes the full product; non-trivial = distinct case description"
+        "and ECDSA keys; quick samples the identity claims, thorough takes the full product; multi-bundle stream: 2..4 bundles x target bundle x 7 role "
+        "patterns of the windowed key (all slots / only j / up to j / from j / revoked at j / every slot but j ...) x windows +-1 s around bundle j, a second "
+        "always-valid signer; non-trivial = distinct case description"
     )
     r = lib.rng("C04")
     runs = []
@@ -257,9 +259,81 @@ def run(tier: str, driver_ok: bool) -> Result:
                     res.violation("private-key operation although the key is outside its window", case, key="window-sign", impl=impl)
                 if len(res.samples) < 3 and (variant, df) in (("right", 0), ("other_key_same_label", 0), ("dup_private", 0)):
                     res.sample({"case": case, "impl": impl, "token_ops": len(x["log"])})
+    multi_bundle_stream(res, runs, r, tier)
     if driver_ok:
         S.compare_with_model(res, runs, "sign_bundles")
     return res
+
+
+ROLE_PATTERNS = ["all", "only_j", "upto_j", "from_j", "publish_all_sign_j", "revoke_j", "not_j"]
+
+
+def multi_bundle_stream(res: Result, runs: list[dict[str, Any]], r: Any, tier: str) -> None:
+    """The window is a condition PER BUNDLE: n = 2..4 bundles, the windowed KSK 'ka' used (published / signing / revoked) in
+    a pattern of slots around a target bundle j, a second always-valid KSK 'kb' signing every slot; valid_from / valid_until
+    are placed +-1 s around bundle j's inception / expiration.  Oracle (property text): the run may complete only if for EVERY
+    bundle i in which ka is published, revoked or signs, inception_i >= valid_from and (no valid_until or expiration_i <=
+    valid_until); then it must complete and ka appears exactly in the slots the schema names; otherwise key-usage violation."""
+    rsa = K.rsa_keys(2048, 65537)
+    ec = K.ec_keys("P-256")
+    combos = []
+    for alg, ka, kb in ((8, rsa[0], rsa[1]), (13, ec[2], ec[3])):
+        for n in (2, 3, 4):
+            for j in range(n):
+                for pat in ROLE_PATTERNS:
+                    for df, du in itertools.product([-1, 0, 1], [None, -1, 0, 1]):
+                        combos.append((alg, ka, kb, n, j, pat, df, du))
+    if tier == "quick":
+        keep = [c for c in combos if c[0] == 8 and c[3] == 3 and (c[6], c[7]) in ((0, 0), (1, None), (0, -1), (-1, 1))]
+        combos = keep + r.sample([c for c in combos if c not in keep], 60)
+    for alg, ka, kb, n, j, pat, df, du in combos:
+        sc = base_scenario(alg, ka)
+        sc.ksks["kb"] = {"label": "Kkb", "tk": kb, "alg": alg, "module": "emu0", "slot": 1, "wrapped": True, "priv_has_point": False, "priv_has_pub_attrs": True}
+        sc.ksks["kb"]["entry"] = C.ksk_config_entry("Kkb", kb, alg)
+        sc.layout = [[0]] * n
+        uses: dict[int, set[str]] = {}
+        for i in range(n):
+            roles = {
+                "all": {"publish", "sign"},
+                "only_j": {"publish", "sign"} if i == j else set(),
+                "upto_j": {"publish", "sign"} if i <= j else set(),
+                "from_j": {"sign"} if i >= j else set(),
+                "publish_all_sign_j": {"publish", "sign"} if i == j else {"publish"},
+                "revoke_j": {"revoke"} if i == j else ({"publish"} if i < j else set()),
+                "not_j": set() if i == j else {"publish", "sign"},
+            }[pat]
+            uses[i] = roles
+            sc.schema[i + 1] = {"publish": ["kb"] + (["ka"] if "publish" in roles else []), "sign": ["kb"] + (["ka"] if "sign" in roles else []), "revoke": ["ka"] if "revoke" in roles else []}
+        req = sc.request()
+        bj = req.bundles[j]
+        e = C.ksk_config_entry("Kka", ka, alg)
+        vf = bj.inception + df * SEC
+        vu = None if du is None else bj.expiration + du * SEC
+        e["valid_from"] = vf.isoformat()
+        if vu is not None:
+            e["valid_until"] = vu.isoformat()
+        sc.ksks["ka"]["entry"] = e
+        x = S.run_sign(sc, "sign_bundles")
+        case = {"stream": "multi-bundle", "alg": alg, "bundles": n, "target_bundle": j + 1, "roles": pat, "valid_from_offset_s": df, "valid_until_offset_s": du}
+        x["case"] = case
+        runs.append(x)
+        res.count(case)
+        res.bump("multi:" + pat)
+        impl = x["impl"]
+        bad_slots = [i + 1 for i, b in enumerate(req.bundles) if uses[i] and not (b.inception >= vf and (vu is None or b.expiration <= vu))]
+        res.bump("multi:" + ("inside" if not bad_slots else "outside"))
+        if "ok" in impl:
+            for i, bb in enumerate(x["objs"]):
+                pub = any(k.key_identifier == "Kka" for k in bb.keys)
+                sgn = any(sg.key_identifier == "Kka" for sg in bb.signatures)
+                if (pub or sgn) and (i + 1) in bad_slots:
+                    res.violation("a KSK was published/used although a stated condition does not hold", case, key=f"multi-bundle:window:{pat}", bundle=i + 1, published=pub, signed=sgn, impl_outcome="ok")
+                if pub != bool(uses[i]) or sgn != ("sign" in uses[i]):
+                    res.violation("windowed KSK does not appear exactly where the schema names it", case, key=f"multi-bundle:roles:{pat}", bundle=i + 1, published=pub, signed=sgn, roles=sorted(uses[i]))
+        if bad_slots and impl != {"violation": "keyUsage"}:
+            res.violation("key outside its validity window: expected a key-usage policy violation", case, key="multi-bundle:window-class", impl=impl if "ok" not in impl else "ok", bad_slots=bad_slots)
+        if not bad_slots and "ok" not in impl:
+            res.violation("every stated condition holds but signing did not complete", case, key=f"multi-bundle:incomplete:{pat}", impl=impl)
 
 
 def replay(obj: dict[str, Any]) -> Any:
